@@ -1,10 +1,22 @@
 (* C09 -- Schedules conclude, repeat and report exhaustion exactly as documented
    Property theorems only: each proof is one application of a lemma proved in Proofs/, followed by Print Assumptions. *)
 From Coq Require Import ZArith List Bool.
-From CS Require MSTerm.
+From CS Require MSTerm OnlineFlags Flags.
 From CS Require Import Actions NAdvance Multistage Exec Sched RunFacts Projections BasicInv MultistageRun TLBridge MixBridge.
 Import ListNotations.
 Open Scope Z_scope.
+
+(* FLAGS, all thirteen classes, every parameter tuple the constructor accepts, every history of next() / finalize(k) requests (ops), any executor parameters: before the first request is_exhausted = is_running = False; after every next() is_running = True; is_exhausted after a request = (the final action of the class has been yielded so far) -- final_action: EndForward for None, EndReverse for the offline classes and SingleDisk(move), none for SingleMemory, SingleDisk(copy), TwoLevel; no action is yielded once the final action has been seen (only StopIteration / an exception), and finalize never changes the flag. flags_hist is the trace rule, defined in Proofs/OnlineFlags.v *)
+Module M_C09_flags.
+Import Flags.
+Theorem C09_flags :
+  forall (pr : Sched.params) (p : Exec.xparams) (ops : list Sched.op) (o0 : Sched.obs) 
+           (m : Sched.mon) (ls : list Sched.line),
+         Sched.run_case pr p ops = Actions.Ok (o0, m, ls) ->
+         Sched.o_exh o0 = false /\ Sched.o_run o0 = false /\ OnlineFlags.flags_hist (final_action pr) false ls.
+Proof. exact (@Flags.C09_flags). Qed.
+Print Assumptions C09_flags.
+End M_C09_flags.
 
 (* unlimited adjoint calculations, each executable: the run theorems hold for every number k of further requests *)
 Theorem C09_single_memory_passes : forall (N : Z), 1 <= N -> N <= maxsize -> forall k : nat,
@@ -20,7 +32,40 @@ Theorem C09_twolevel_passes : forall (N P bs : Z) (bst : storage) (tj : traj), 1
 Proof. exact twolevel_run. Qed.
 Print Assumptions C09_twolevel_passes.
 
-(* PARTIAL: termination measure of the Multistage machine decreases at every yielded action; the flag theorems (is_exhausted / is_running at every point) are not proved yet: correspondence + oracle *)
+(* the same rule read on the raise-free Multistage runs of the run theorem (every line: is_running, and is_exhausted = (the action is EndReverse), StopIteration only with is_exhausted) *)
+Module M_C09_multistage_flags_on_runs.
+Import MultistageRun.
+Theorem C09_multistage_flags_on_runs :
+  forall (N ram disk : Z) (tj : NAdvance.traj) (c : Multistage.cfg) (k : nat),
+         1 <= N ->
+         0 <= ram ->
+         0 <= disk ->
+         (2 <= N -> 1 <= ram + disk) ->
+         Multistage.construct N ram disk tj = Actions.Ok c ->
+         exists (o0 : Sched.obs) (m : Sched.mon) (ls : list Sched.line),
+           Sched.run_case (Sched.PMulti N ram disk tj) (ms_params N ram disk) (repeat Sched.Next k) =
+           Actions.Ok (o0, m, ls) /\ Forall (RunFacts.line_fl (RunFacts.flag_rule MSBridge.is_endrev)) ls.
+Proof. exact (@MultistageRun.multistage_flags). Qed.
+Print Assumptions C09_multistage_flags_on_runs.
+End M_C09_multistage_flags_on_runs.
+
+(* ... and on the Mixed runs *)
+Module M_C09_mixed_flags_on_runs.
+Import MixBridge.
+Theorem C09_mixed_flags_on_runs :
+  forall (N s : Z) (sg : Actions.storage) (tab : bool) (k : nat),
+         1 <= N ->
+         0 <= s ->
+         (2 <= N -> 1 <= s) ->
+         sg = Actions.RAM \/ sg = Actions.DISK ->
+         exists (o0 : Sched.obs) (m : Sched.mon) (ls : list Sched.line),
+           Sched.run_case (Sched.PMixed N s sg tab) (pmx N (Z.min s (N - 1)) sg) (repeat Sched.Next k) =
+           Actions.Ok (o0, m, ls) /\ Forall (RunFacts.line_fl (RunFacts.flag_rule is_endrev)) ls.
+Proof. exact (@MixBridge.mixed_flags). Qed.
+Print Assumptions C09_mixed_flags_on_runs.
+End M_C09_mixed_flags_on_runs.
+
+(* PARTIAL: termination measure of the Multistage machine decreases at every yielded action (so the final action is reached); "each further pass is an exact repeat of the first" is covered by executability for every k above, the literal equality of passes by correspondence + oracle *)
 Module M_C09_multistage_terminates_partial.
 Import MSTerm.
 Theorem C09_multistage_terminates_partial :
